@@ -448,6 +448,70 @@ def write_evidence(mod, tier, seed, stats, wall, exhaustive, plan_desc, findings
   return path
 
 
+def _child_main(fn, arg, conn):
+  try:
+    res = fn(arg)
+  except BaseException as e:      # the job functions catch what they can judge; anything else is a harness error
+    res = Stats()
+    res.harness_errors.append("worker failed: %r\n%s" % (e, traceback.format_exc()[-1500:]))
+  try:
+    conn.send(res)
+  finally:
+    conn.close()
+
+
+def _run_processes(ctxm, calls, nproc, limit):
+  """One fresh (forked) process per job, at most nproc at a time; results in job order.
+  Unlike multiprocessing.Pool this notices a worker that dies without delivering a result (killed from outside, out of
+  memory): the job is run once more, and a second death is a harness error -- never a silent wait."""
+  import multiprocessing.connection as mpc
+  results = [None] * len(calls)
+  pending = [(i, 0) for i in range(len(calls))]
+  running = {}            # index -> (process, read end, start time, attempt)
+  while pending or running:
+    while pending and len(running) < nproc:
+      i, attempt = pending.pop(0)
+      r, w = ctxm.Pipe(duplex=False)
+      pr = ctxm.Process(target=_child_main, args=(calls[i][0], calls[i][1], w))
+      pr.daemon = False
+      pr.start()
+      w.close()
+      running[i] = (pr, r, time.time(), attempt)
+    mpc.wait([v[1] for v in running.values()] + [v[0].sentinel for v in running.values()], timeout=1.0)
+    for i, (pr, r, t0, attempt) in list(running.items()):
+      got = False
+      if r.poll():
+        try:
+          results[i] = r.recv()
+          got = True
+        except (EOFError, OSError):
+          got = False
+      if got:
+        r.close()
+        pr.join()
+        del running[i]
+      elif not pr.is_alive():
+        r.close()
+        pr.join()
+        del running[i]
+        if attempt == 0:
+          pending.append((i, 1))
+        else:
+          s = Stats()
+          s.harness_errors.append("a worker process died twice without a result (exit code %r)" % (pr.exitcode,))
+          results[i] = s
+      elif time.time() - t0 > limit:
+        pr.kill()
+        pr.join()
+        r.close()
+        del running[i]
+        s = Stats()
+        s.harness_errors.append("a worker did not finish within %.0f s" % limit)
+        results[i] = s
+  return results
+
+
+
 def main(argv=None):
   ap = argparse.ArgumentParser()
   ap.add_argument("prop")
@@ -498,24 +562,13 @@ def main(argv=None):
       for s in range(n):
         jobs.append((modname, tier, seed, i, s, n, session))
     results = []
-    with ctxm.Pool(processes=max(1, min(a.jobs, len(jobs) + 1)), maxtasksperchild=1) as pool:
-      asyncs = []
-      if rounds == 0 and not a.only:
-        asyncs.append(pool.apply_async(_replay_job, ((modname, tier, seed),)))
-      for j in jobs:
-        asyncs.append(pool.apply_async(_job, (j,)))
-      limit = float(os.environ.get("VERIF_JOB_TIMEOUT", "14400"))
-      for r in asyncs:
-        try:
-          results.append(r.get(timeout=limit))
-        except mp.TimeoutError:
-          s = Stats()
-          s.harness_errors.append("a worker did not finish within %.0f s" % limit)
-          results.append(s)
-        except BaseException as e:
-          s = Stats()
-          s.harness_errors.append("worker failed: %r" % (e,))
-          results.append(s)
+    calls = []
+    if rounds == 0 and not a.only:
+      calls.append((_replay_job, (modname, tier, seed)))
+    for j in jobs:
+      calls.append((_job, j))
+    limit = float(os.environ.get("VERIF_JOB_TIMEOUT", "14400"))
+    results = _run_processes(ctxm, calls, max(1, min(a.jobs, len(calls))), limit)
     before = len(total.violations)
     for s in results:
       total.merge(s)
